@@ -176,6 +176,14 @@ func runC05(r *drv.Run) drv.Spec {
 		nBig = 1500
 	}
 	big := hostileCorpus(r, "c05big", nBig/2, nBig/2, 1, 120<<10)
+	// LZMA / XZ with a 4 KiB dictionary (ring-buffer seams, far matches): these
+	// get a client that drains a small destination buffer after every call, so
+	// that the decoder's history goes through the work buffer
+	for i := 0; i < 3+nBig/40; i++ {
+		if sd, err := corpus.SmallDictItems(vk.CaseRNG(r.Seed, 0, "c05smalldict", int64(i))); err == nil {
+			big = append(big, sd...)
+		}
+	}
 	if err := corpus.WriteItems(r.Scratch+"/c05b", big, "b"); err != nil {
 		drv.Fatal("%v", err)
 	}
@@ -200,6 +208,9 @@ func runC05(r *drv.Run) drv.Spec {
 			}
 			if k%2 == 1 {
 				line += " salloc=exact"
+			}
+			if it.PClass == "periodic" {
+				line = base + fmt.Sprintf(" mode=compact sbuf=%d dbuf=%d", []int{4096, 100, 9000}[mr.Intn(3)], 200+mr.Intn(5000))
 			}
 			mjobs = append(mjobs, &wd.Job{Text: line + "\n", Tag: it})
 		}
